@@ -312,6 +312,14 @@ class State:
                 r = z3.unknown
         if r != z3.unsat:
             r = self._check(z3.Not(claim))
+        if r == z3.unknown and ('timeout' in self.solver.reason_unknown() or 'cancel' in self.solver.reason_unknown()):
+            # wall-clock budget exhausted: on a busy machine that says nothing about the query.  One more attempt with
+            # three times the budget, so that verdicts do not flip with the load (never a violation either way)
+            self.solver.set('timeout', self.timeout_ms * 3)
+            try:
+                r = self._check(z3.Not(claim))
+            finally:
+                self.solver.set('timeout', self.timeout_ms)
         secs = time.time() - t0
         if r == z3.unsat:
             self.obligations.append(Obl(label, 'discharged', secs, detail))
